@@ -34,6 +34,8 @@ Inductive gans :=
 
 Inductive dact :=
 | DDeliver (h : hdr) (now : Z) (b : bifres)
+| DDeliverP (h : hdr) (now : Z) (b : bifres)   (* the same, but the call is parked inside setLocalHead right before
+                                                 pending.Add (by a header whose Height() blocks there) until DRelT *)
 | DHead (a : option hdr)
 | DAnswer (a : gans)
 | DRelL                      (* release the sync loop's gated Store.Append *)
@@ -100,18 +102,29 @@ Definition tvf := link_tv trust.
 (** let every goroutine run until it blocks: learners in spawn order, then
     the loop, repeated (a learner's wantSync wakes the loop; the loop never
     unblocks a learner except through incomingMu, which learners release
-    themselves) *)
-Fixpoint settle_thr (n : nat) (c : cfg) : cfg :=
-  match n with
+    themselves).  [hold] = the learner calls the driver parks before pending.Add *)
+Definition at_sl4 (c : cfg) (i : nat) : bool :=
+  match nth_error (c_thr c) i with Some (TRun _ _ _ SL4 _) => true | _ => false end.
+
+Definition held (hold : list nat) (c : cfg) (i : nat) : bool := existsb (Nat.eqb i) hold && at_sl4 c i.
+
+Fixpoint t_run_h (hold : list nat) (fuel : nat) (i : nat) (c : cfg) : cfg :=
+  match fuel with
   | O => c
-  | S k => let c' := settle_thr k c in t_run drift tvf big_fuel gate k c'
+  | S f => if t_blocked gate i c || held hold c i then c else t_run_h hold f i (t_step drift tvf i c)
   end.
 
-Definition settle (c : cfg) : cfg :=
-  let c1 := settle_thr (length (c_thr c)) c in
+Fixpoint settle_thr (hold : list nat) (n : nat) (c : cfg) : cfg :=
+  match n with
+  | O => c
+  | S k => let c' := settle_thr hold k c in t_run_h hold big_fuel k c'
+  end.
+
+Definition settle (hold : list nat) (c : cfg) : cfg :=
+  let c1 := settle_thr hold (length (c_thr c)) c in
   let c2 := l_run big_fuel gate c1 in
   (* a learner that was waiting for incomingMu may proceed once another released it *)
-  let c3 := settle_thr (length (c_thr c2)) c2 in
+  let c3 := settle_thr hold (length (c_thr c2)) c2 in
   l_run big_fuel gate c3.
 
 Definition ret_of (c : cfg) (i : nat) : N :=
@@ -123,41 +136,52 @@ Definition ret_of (c : cfg) (i : nat) : N :=
   end.
 
 (** one driver action; [None] = the action is impossible in the model's state *)
-Definition act (c : cfg) (a : dact) : option (cfg * N) :=
+Definition act (hold : list nat) (c : cfg) (a : dact) : option (cfg * N * list nat) :=
   match a with
   | DDeliver h now b =>
     let i := length (c_thr c) in
-    let c' := settle (step drift tvf c (EGossip h now b)) in
-    Some (c', ret_of c' i)
+    let c' := settle hold (step drift tvf c (EGossip h now b)) in
+    Some (c', ret_of c' i, hold)
+  | DDeliverP h now b =>
+    let i := length (c_thr c) in
+    let hold' := i :: hold in
+    let c' := settle hold' (step drift tvf c (EGossip h now b)) in
+    Some (c', ret_of c' i, hold')
   | DHead ans =>
-    let c' := settle (step drift tvf c (EHead ans)) in
-    Some (c', 0)
+    let c' := settle hold (step drift tvf c (EHead ans)) in
+    Some (c', 0, hold)
   | DAnswer ans =>
     match cur_req c with
-    | Some _ => Some (settle (l_step (expand ans c) c), 0)
+    | Some _ => Some (settle hold (l_step (expand ans c) c), 0, hold)
     | None => None
     end
   | DRelL =>
     match c_loop c with
-    | LApp2 _ _ => Some (settle (l_step GErr c), 0)
+    | LApp2 _ _ => Some (settle hold (l_step GErr c), 0, hold)
     | _ => None
     end
   | DRelT i =>
-    match nth_error (c_thr c) i with
-    | Some (TRun _ _ _ SL2 _) => Some (settle (t_step drift tvf i c), 0)
-    | _ => None
-    end
+    if held hold c i then
+      let hold' := filter (fun j => negb (Nat.eqb i j)) hold in
+      Some (settle hold' c, 0, hold')
+    else
+      match nth_error (c_thr c) i with
+      | Some (TRun _ _ _ SL2 _) => Some (settle hold (t_step drift tvf i c), 0, hold)
+      | _ => None
+      end
   end.
 
-Fixpoint sim (c : cfg) (acts : list dact) : list obs * cfg :=
+Fixpoint sim_h (hold : list nat) (c : cfg) (acts : list dact) : list obs * cfg :=
   match acts with
   | [] => ([], c)
   | a :: r =>
-    match act c a with
+    match act hold c a with
     | None => ([], c)
-    | Some (c', ret) => let '(os, cf) := sim c' r in (observe ret c' :: os, cf)
+    | Some (c', ret, hold') => let '(os, cf) := sim_h hold' c' r in (observe ret c' :: os, cf)
     end
   end.
+
+Definition sim (c : cfg) (acts : list dact) : list obs * cfg := sim_h [] c acts.
 
 End sim.
 
